@@ -825,30 +825,53 @@ pub fn anf_file(liftenv: GlobalLiftEnv, gensym: &Gensym, file: LiftFile) -> (Fil
 
 pub mod anf_renamer {
     use crate::anf;
+    use std::collections::HashSet;
 
+    /// Locals are named `hint/index` up to here and `hint__index` in the Go text. A top-level
+    /// function keeps the name it was written with, and that may be `f__3`: such a local gets
+    /// more underscores until it is nobody's name.
     pub fn rename(file: anf::File) -> anf::File {
+        let taken: HashSet<String> = file.toplevels.iter().map(|f| f.name.clone()).collect();
         anf::File {
-            toplevels: file.toplevels.into_iter().map(rename_fn).collect(),
+            toplevels: file
+                .toplevels
+                .into_iter()
+                .map(|f| rename_fn(f, &taken))
+                .collect(),
         }
     }
 
-    fn rename_fn(f: anf::Fn) -> anf::Fn {
+    fn local_name(name: &str, taken: &HashSet<String>) -> String {
+        if !name.contains('/') {
+            return name.to_string();
+        }
+        let mut separator = String::from("__");
+        loop {
+            let candidate = name.replace('/', &separator);
+            if !taken.contains(&candidate) {
+                return candidate;
+            }
+            separator.push('_');
+        }
+    }
+
+    fn rename_fn(f: anf::Fn, taken: &HashSet<String>) -> anf::Fn {
         anf::Fn {
             name: f.name,
             params: f
                 .params
                 .into_iter()
-                .map(|(n, t)| (n.replace("/", "__"), t))
+                .map(|(n, t)| (local_name(&n, taken), t))
                 .collect(),
             ret_ty: f.ret_ty,
-            body: rename_aexpr(f.body),
+            body: rename_aexpr(f.body, taken),
         }
     }
 
-    fn rename_imm(imm: anf::ImmExpr) -> anf::ImmExpr {
+    fn rename_imm(imm: anf::ImmExpr, taken: &HashSet<String>) -> anf::ImmExpr {
         match imm {
             anf::ImmExpr::ImmVar { name, ty } => anf::ImmExpr::ImmVar {
-                name: name.replace("/", "__"),
+                name: local_name(&name, taken),
                 ty,
             },
             anf::ImmExpr::ImmPrim { value, ty } => anf::ImmExpr::ImmPrim { value, ty },
@@ -856,10 +879,10 @@ pub mod anf_renamer {
         }
     }
 
-    fn rename_cexpr(e: anf::CExpr) -> anf::CExpr {
+    fn rename_cexpr(e: anf::CExpr, taken: &HashSet<String>) -> anf::CExpr {
         match e {
             anf::CExpr::CImm { imm } => anf::CExpr::CImm {
-                imm: rename_imm(imm),
+                imm: rename_imm(imm, taken),
             },
             anf::CExpr::EConstr {
                 constructor,
@@ -867,15 +890,15 @@ pub mod anf_renamer {
                 ty,
             } => anf::CExpr::EConstr {
                 constructor,
-                args: args.into_iter().map(rename_imm).collect(),
+                args: args.into_iter().map(|imm| rename_imm(imm, taken)).collect(),
                 ty,
             },
             anf::CExpr::ETuple { items, ty } => anf::CExpr::ETuple {
-                items: items.into_iter().map(rename_imm).collect(),
+                items: items.into_iter().map(|imm| rename_imm(imm, taken)).collect(),
                 ty,
             },
             anf::CExpr::EArray { items, ty } => anf::CExpr::EArray {
-                items: items.into_iter().map(rename_imm).collect(),
+                items: items.into_iter().map(|imm| rename_imm(imm, taken)).collect(),
                 ty,
             },
             anf::CExpr::EMatch {
@@ -884,15 +907,15 @@ pub mod anf_renamer {
                 default,
                 ty,
             } => anf::CExpr::EMatch {
-                expr: Box::new(rename_imm(*expr)),
+                expr: Box::new(rename_imm(*expr, taken)),
                 arms: arms
                     .into_iter()
                     .map(|arm| anf::Arm {
-                        lhs: rename_imm(arm.lhs),
-                        body: rename_aexpr(arm.body),
+                        lhs: rename_imm(arm.lhs, taken),
+                        body: rename_aexpr(arm.body, taken),
                     })
                     .collect(),
-                default: default.map(|d| Box::new(rename_aexpr(*d))),
+                default: default.map(|d| Box::new(rename_aexpr(*d, taken))),
                 ty,
             },
             anf::CExpr::EIf {
@@ -901,14 +924,14 @@ pub mod anf_renamer {
                 else_,
                 ty,
             } => anf::CExpr::EIf {
-                cond: Box::new(rename_imm(*cond)),
-                then: Box::new(rename_aexpr(*then)),
-                else_: Box::new(rename_aexpr(*else_)),
+                cond: Box::new(rename_imm(*cond, taken)),
+                then: Box::new(rename_aexpr(*then, taken)),
+                else_: Box::new(rename_aexpr(*else_, taken)),
                 ty,
             },
             anf::CExpr::EWhile { cond, body, ty } => anf::CExpr::EWhile {
-                cond: Box::new(rename_aexpr(*cond)),
-                body: Box::new(rename_aexpr(*body)),
+                cond: Box::new(rename_aexpr(*cond, taken)),
+                body: Box::new(rename_aexpr(*body, taken)),
                 ty,
             },
             anf::CExpr::EConstrGet {
@@ -917,25 +940,25 @@ pub mod anf_renamer {
                 field_index,
                 ty,
             } => anf::CExpr::EConstrGet {
-                expr: Box::new(rename_imm(*expr)),
+                expr: Box::new(rename_imm(*expr, taken)),
                 constructor,
                 field_index,
                 ty,
             },
             anf::CExpr::EUnary { op, expr, ty } => anf::CExpr::EUnary {
                 op,
-                expr: Box::new(rename_imm(*expr)),
+                expr: Box::new(rename_imm(*expr, taken)),
                 ty,
             },
             anf::CExpr::EBinary { op, lhs, rhs, ty } => anf::CExpr::EBinary {
                 op,
-                lhs: Box::new(rename_imm(*lhs)),
-                rhs: Box::new(rename_imm(*rhs)),
+                lhs: Box::new(rename_imm(*lhs, taken)),
+                rhs: Box::new(rename_imm(*rhs, taken)),
                 ty,
             },
             anf::CExpr::ECall { func, args, ty } => anf::CExpr::ECall {
-                func: rename_imm(func),
-                args: args.into_iter().map(rename_imm).collect(),
+                func: rename_imm(func, taken),
+                args: args.into_iter().map(|imm| rename_imm(imm, taken)).collect(),
                 ty,
             },
             anf::CExpr::EToDyn {
@@ -946,7 +969,7 @@ pub mod anf_renamer {
             } => anf::CExpr::EToDyn {
                 trait_name,
                 for_ty,
-                expr: rename_imm(expr),
+                expr: rename_imm(expr, taken),
                 ty,
             },
             anf::CExpr::EDynCall {
@@ -958,26 +981,26 @@ pub mod anf_renamer {
             } => anf::CExpr::EDynCall {
                 trait_name,
                 method_name,
-                receiver: rename_imm(receiver),
-                args: args.into_iter().map(rename_imm).collect(),
+                receiver: rename_imm(receiver, taken),
+                args: args.into_iter().map(|imm| rename_imm(imm, taken)).collect(),
                 ty,
             },
             anf::CExpr::EGo { closure, ty } => anf::CExpr::EGo {
-                closure: Box::new(rename_imm(*closure)),
+                closure: Box::new(rename_imm(*closure, taken)),
                 ty,
             },
             anf::CExpr::EProj { tuple, index, ty } => anf::CExpr::EProj {
-                tuple: Box::new(rename_imm(*tuple)),
+                tuple: Box::new(rename_imm(*tuple, taken)),
                 index,
                 ty,
             },
         }
     }
 
-    fn rename_aexpr(e: anf::AExpr) -> anf::AExpr {
+    fn rename_aexpr(e: anf::AExpr, taken: &HashSet<String>) -> anf::AExpr {
         match e {
             anf::AExpr::ACExpr { expr } => anf::AExpr::ACExpr {
-                expr: rename_cexpr(expr),
+                expr: rename_cexpr(expr, taken),
             },
             anf::AExpr::ALet {
                 name,
@@ -985,9 +1008,9 @@ pub mod anf_renamer {
                 body,
                 ty,
             } => anf::AExpr::ALet {
-                name: name.replace("/", "__"),
-                value: Box::new(rename_cexpr(*value)),
-                body: Box::new(rename_aexpr(*body)),
+                name: local_name(&name, taken),
+                value: Box::new(rename_cexpr(*value, taken)),
+                body: Box::new(rename_aexpr(*body, taken)),
                 ty,
             },
         }
